@@ -2,7 +2,7 @@
 
 use crate::ctx::Ctx;
 use crate::json::{fvec, J};
-use crate::mon::c06::{alpha_pick, RATES};
+use crate::mon::c06::{alpha_pick, rate_pick};
 use crate::pulse::steady_state;
 use crate::refimpl::{lsp_to_lpc, poly_mag, warp};
 use crate::rng::{mix, Rng};
@@ -81,7 +81,7 @@ pub fn run(ctx: &mut Ctx) {
         let stage = 1 + idx % 4;
         let alpha = alpha_pick(rng);
         let log_gain = (idx / 4) % 2 == 1;
-        let rate = RATES[(idx / 8) % RATES.len()];
+        let rate = rate_pick(rng, idx / 8);
         let w = random_lsp(rng, m);
         // (a gain of exactly one is a corner of the gain normalisation)
         let k = if idx % 10 == 3 { 1.0 } else { rng.log_uniform(0.2, 5.0) };
